@@ -424,6 +424,19 @@ func Index(x, i V) V {
 		}
 		return NULL
 	}
+	if x.K == Str {
+		// a string indexed by an integer: its i-th byte (shared definition; engines differ)
+		if i.K == Null {
+			return NULL
+		}
+		if i.K != Int {
+			return ERR
+		}
+		if i.I < 1 || i.I > int64(len(x.S)) {
+			return NULL
+		}
+		return S(x.S[i.I-1 : i.I])
+	}
 	if x.K != Arr {
 		return ERR
 	}
